@@ -39,11 +39,11 @@ Section Pre.
   (* NewSparseFile before 0331e86: the path that does not load the state returns without touching the state file *)
   Definition restart_pre (s : sstate) (m : rmode) : sstate :=
     let s' := restart idx s m in
-    let cache := match m_cache m with CKeep => s_file s | CAbsent => [] | CResize k => resize (s_file s) k end in
+    let cache := if s_nofile s then [] else match m_cache m with CKeep => s_file s | CAbsent => [] | CResize k => resize (s_file s) k end in
     let usable := match s_saved s with Some b => m_state m && (List.length b =? n)%nat | None => false end in
     if (List.length cache =? L)%nat && usable then s'
     else mkstate (s_done s') (s_file s') (s_calls s') (s_mutex s') (s_saved s) (s_threads s') (s_log s')
-                 (s_crashed s') (s_fetched s').
+                 (s_crashed s') (s_nofile s') (s_fetched s').
 
   (* before 61c4b65: when the fetch of a reader fails with io.EOF itself, the caller observes (0, io.EOF) *)
   Definition eof_through (s : sstate) (k : nat) : option sstate :=
@@ -54,7 +54,7 @@ Section Pre.
             if N.eqb c code_bare_eof && negb (s_crashed s) then
               match step idx nullid store s (LThread k) with
               | Some s' => Some (mkstate (s_done s') (s_file s') (s_calls s') (s_mutex s') (s_saved s') (s_threads s')
-                                         ((RqRead off len, ROk [] true) :: s_log s) (s_crashed s') (s_fetched s'))
+                                         ((RqRead off len, ROk [] true) :: s_log s) (s_crashed s') (s_nofile s') (s_fetched s'))
               | None => None
               end
             else None
@@ -85,7 +85,7 @@ Section Pre.
               | Some (first, last) =>
                   match needed idx nullid (s_done s) first last with
                   | None => Some (mkstate (s_done s) (s_file s) (s_calls s) (s_mutex s) (s_saved s) (s_threads s)
-                                          (s_log s) true (s_fetched s))      (* index out of range: panic *)
+                                          (s_log s) true (s_nofile s) (s_fetched s))      (* index out of range: panic *)
                   | Some todo => Some (set_pc s k th (PNeed todo))
                   end
               end
